@@ -43,6 +43,7 @@ type GhostDecl struct {
 	Name  string
 	Owner string // sort name for field owner ("ref" or "iface")
 	Sort  string // value sort in contract-type syntax
+	ZeroFor string // Go type (typeID) whose freshly allocated objects have this ghost field zero
 }
 
 type SpecFunc struct {
@@ -207,7 +208,12 @@ func (c *Contracts) LoadFile(path, source string) error {
 			case "ghost":
 				// ghost field <name> <owner> <sort> | ghost var <name> <sort>
 				if len(fields) >= 5 && fields[1] == "field" {
-					c.Ghosts[fields[2]] = &GhostDecl{Kind: "field", Name: fields[2], Owner: fields[3], Sort: strings.Join(fields[4:], " ")}
+					zf := ""
+					if last := fields[len(fields)-1]; strings.HasPrefix(last, "zero:") && len(fields) >= 6 {
+						zf = sanitize(strings.TrimPrefix(last, "zero:"))
+						fields = fields[:len(fields)-1]
+					}
+					c.Ghosts[fields[2]] = &GhostDecl{Kind: "field", Name: fields[2], Owner: fields[3], Sort: strings.Join(fields[4:], " "), ZeroFor: zf}
 				} else if len(fields) >= 4 && fields[1] == "var" {
 					c.Ghosts[fields[2]] = &GhostDecl{Kind: "var", Name: fields[2], Sort: strings.Join(fields[3:], " ")}
 				} else {
